@@ -123,6 +123,31 @@ def pretty_mrec(v, ctx):
     return prettyprinter.pretty_call(ctx, type(v), size=len(v) if hasattr(v, '__len__') else -1)
 
 
+ARMED = [False]
+
+
+class Aborts:
+    """while armed its printer returns an invalid value: pformat of anything containing it RAISES (ValueError); afterwards the very same objects
+    must print as if nothing had happened"""
+    def __repr__(self):
+        return '<Aborts>'
+
+
+@register_pretty(Aborts)
+def pretty_aborts(v, ctx):
+    if ARMED[0]:
+        return None
+    return prettyprinter.pretty_call(ctx, Aborts)
+
+
+def _op_arm_abort():
+    ARMED[0] = True
+
+
+def _op_disarm_abort():
+    ARMED[0] = False
+
+
 def _op_register_hbase_by_name():
     @register_pretty(__name__ + '.HBase')
     def pretty_hbase(v, ctx):
@@ -139,7 +164,7 @@ def _op_narrow_width():
     prettyprinter.set_default_config(width=30)
 
 
-OPS = {'op:register-HBase-by-name': _op_register_hbase_by_name, 'op:register-HSub-by-class': _op_register_hsub_by_class, 'op:set-default-width-30': _op_narrow_width}
+OPS = {'op:arm-abort': _op_arm_abort, 'op:disarm-abort': _op_disarm_abort, 'op:register-HBase-by-name': _op_register_hbase_by_name, 'op:register-HSub-by-class': _op_register_hsub_by_class, 'op:set-default-width-30': _op_narrow_width}
 
 
 class UserObj:
@@ -213,6 +238,8 @@ def build_corpus(quick):
     add('hsub', HSub(1))
     add('hbase', HBase(2))
     add('hother-nested', [HOther(3), HSub(4)])
+    add('abort-top', Aborts())
+    add('abort-container', {'k': [Aborts(), 1], 'other': (2, 3)})
     add('event-full', Event('a', [1, 2]))
     add('event-empty', Event('ping', None))
     add('event-mixed', [Event('x', None), Event('y', 2), Event('z', None)])
@@ -434,6 +461,8 @@ def run_shard(sh):
         ['gmtime', 'hostile-struct_time', 'gmtime', 'stat_result', 'sys.flags', 'version_info'],
         ['cyclic-list', 'shared', 'cyclic-dict', 'cyclic-list', 'shared'],
         ['commented-dict', 'commented', 'commented-top', 'commented-dict'],
+        ['abort-container', 'op:arm-abort', 'abort-container', 'abort-top', 'op:disarm-abort', 'abort-container', 'abort-top', 'builtin-0', 'abort-container'],
+        ['op:arm-abort', 'abort-top', 'abort-container', 'op:disarm-abort', 'abort-container', 'shared', 'abort-top'],
         ['event-full', 'event-empty', 'event-mixed', 'event-empty', 'event-full'],
         ['event-mixed', 'event-full', 'event-empty'],
         ['mpoint', 'mrec', 'mpoint', 'mmap', 'mlist-nested'],
